@@ -328,11 +328,16 @@ func (s Traversal) BreadthFirst(ctx context.Context, plan Plan) error {
 						return nil
 					}
 				}
-			}); err != nil && !errors.Is(err, graph.ErrContextTimedOut) && !errors.Is(err, context.Canceled) {
-				// A worker encountered a fatal error, kill the traversal context
-				doneFunc()
+			}); err != nil {
+				// A timeout or cancellation error is the expected way out for a worker only once the traversal context
+				// is done. While the traversal is still running any error is fatal, whatever its kind: the segment that
+				// was being expanded is never marked complete, so the traversal has to be stopped and the error reported
+				if traversalCtx.Err() == nil || (!errors.Is(err, graph.ErrContextTimedOut) && !errors.Is(err, context.Canceled)) {
+					// A worker encountered a fatal error, kill the traversal context
+					doneFunc()
 
-				errorCollector.Add(fmt.Errorf("reader %d failed: %w", workerID, err))
+					errorCollector.Add(fmt.Errorf("reader %d failed: %w", workerID, err))
+				}
 			}
 		}(workerID)
 	}
